@@ -149,7 +149,11 @@ func (a *{{ $structName }}) Equals(b *{{ $structName }}) bool {
 }
 
 func (a *{{ $structName }}) EqualsModel(b model.Model) bool {
-	c := b.(*{{ $structName }})
+	c, ok := b.(*{{ $structName }})
+	if !ok {
+		// a model of another table
+		return false
+	}
 	return a.Equals(c)
 }
 
